@@ -156,6 +156,118 @@ const PTR_CALLS: &[&str] = &[
     "new_from", "new_owned", "new_write_address_ptr", "new_unchecked", "set_ptr", "assume_init_drop", "load_and_drop", "as_ptr", "as_mut_ptr",
 ];
 
+thread_local! {
+    /// private functions of lib.rs / future.rs / internal.rs that (transitively) take the channel lock:
+    /// name -> true when they use the blocking acquisition somewhere
+    static LOCKING_HELPERS: std::cell::RefCell<BTreeMap<String, bool>> = std::cell::RefCell::new(BTreeMap::new());
+}
+
+fn locking_helper(name: &str) -> Option<bool> {
+    LOCKING_HELPERS.with(|m| m.borrow().get(name).cloned())
+}
+
+/// all functions of a file with their visibility: (simple name, private, body)
+fn collect_with_vis(file: &syn::File, out: &mut Vec<(String, bool, Block)>) {
+    fn impl_items(items: &[ImplItem], in_trait: bool, out: &mut Vec<(String, bool, Block)>) {
+        for it in items {
+            if let ImplItem::Fn(f) = it {
+                if is_cfg_verif(&f.attrs) {
+                    continue;
+                }
+                let private = !in_trait && matches!(f.vis, syn::Visibility::Inherited);
+                out.push((f.sig.ident.to_string(), private, f.block.clone()));
+            }
+        }
+    }
+    for item in &file.items {
+        match item {
+            Item::Fn(f) => {
+                if !is_cfg_verif(&f.attrs) {
+                    out.push((f.sig.ident.to_string(), matches!(f.vis, syn::Visibility::Inherited), (*f.block).clone()));
+                }
+            }
+            Item::Impl(im) => {
+                if !is_cfg_verif(&im.attrs) {
+                    impl_items(&im.items, im.trait_.is_some(), out);
+                }
+            }
+            Item::Macro(m) => {
+                if let Some(body) = last_brace_group(m.mac.tokens.clone()) {
+                    let wrapped: TokenStream = format!("impl X {{ {} }}", body).parse().unwrap_or_default();
+                    if let Ok(im) = syn::parse2::<syn::ItemImpl>(wrapped) {
+                        impl_items(&im.items, false, out);
+                    }
+                }
+            }
+            _ => {}
+        }
+    }
+}
+
+fn compute_locking_helpers(files: &[&syn::File]) {
+    let mut fns = vec![];
+    for f in files {
+        collect_with_vis(f, &mut fns);
+    }
+    struct V {
+        names: Vec<String>,
+    }
+    impl<'ast> syn::visit::Visit<'ast> for V {
+        fn visit_expr_call(&mut self, c: &'ast syn::ExprCall) {
+            if let Expr::Path(p) = &*c.func {
+                if let Some(s) = p.path.segments.last() {
+                    self.names.push(s.ident.to_string());
+                }
+            }
+            syn::visit::visit_expr_call(self, c);
+        }
+        fn visit_expr_method_call(&mut self, m: &'ast syn::ExprMethodCall) {
+            self.names.push(m.method.to_string());
+            syn::visit::visit_expr_method_call(self, m);
+        }
+    }
+    let mut calls: BTreeMap<String, Vec<String>> = BTreeMap::new();
+    let mut private: BTreeMap<String, bool> = BTreeMap::new();
+    for (n, p, b) in &fns {
+        let mut v = V { names: vec![] };
+        syn::visit::Visit::visit_block(&mut v, b);
+        calls.entry(n.clone()).or_default().extend(v.names);
+        // a name is a private helper only if every function of that name is private
+        let e = private.entry(n.clone()).or_insert(true);
+        *e = *e && *p;
+    }
+    let mut locking: BTreeMap<String, bool> = BTreeMap::new();
+    loop {
+        let mut changed = false;
+        for (n, cs) in &calls {
+            if !private.get(n).cloned().unwrap_or(false) || n == "acquire_internal" || n == "try_acquire_internal" {
+                continue;
+            }
+            let mut any = false;
+            let mut blocking = false;
+            for c in cs {
+                if c == "acquire_internal" {
+                    any = true;
+                    blocking = true;
+                } else if c == "try_acquire_internal" {
+                    any = true;
+                } else if let Some(b) = locking.get(c) {
+                    any = true;
+                    blocking = blocking || *b;
+                }
+            }
+            if any && locking.get(n) != Some(&blocking) {
+                locking.insert(n.clone(), blocking);
+                changed = true;
+            }
+        }
+        if !changed {
+            break;
+        }
+    }
+    LOCKING_HELPERS.with(|m| *m.borrow_mut() = locking);
+}
+
 struct Sk {
     mode: Mode,
     lines: Vec<String>,
@@ -192,7 +304,7 @@ impl Sk {
     fn interesting(&self, name: &str) -> bool {
         match self.mode {
             Mode::Full => ATOMIC.contains(&name) || FULL_CALLS.contains(&name),
-            Mode::LockProf => LOCK_CALLS.contains(&name),
+            Mode::LockProf => LOCK_CALLS.contains(&name) || locking_helper(name).is_some(),
             Mode::Ptr => PTR_CALLS.contains(&name),
         }
     }
@@ -273,6 +385,13 @@ impl Sk {
         }
         if self.mode == Mode::Full && name == "fence" {
             self.sites.push((name.to_string(), String::new(), vec![], ords.clone(), line));
+        }
+        if self.mode == Mode::LockProf && !LOCK_CALLS.contains(&name) {
+            if let Some(blocking) = locking_helper(name) {
+                // a private helper that takes the channel lock: counted as the acquisition it performs
+                self.emit((if blocking { "acquire_internal" } else { "try_acquire_internal" }).to_string());
+                return;
+            }
         }
         let r = match recv {
             Some(e) => format!("{}.", last_field(e)),
@@ -842,6 +961,7 @@ fn main() {
             skel_rows.push((f.qname.clone(), lines));
         }
     }
+    compute_locking_helpers(&[&parsed["lib.rs"], &parsed["future.rs"], &parsed["internal.rs"]]);
     for f in ["lib.rs", "future.rs", "internal.rs"] {
         let mut funcs = vec![];
         collect_funcs(&parsed[f], &mut funcs);
